@@ -70,10 +70,15 @@ impl Code {
 			if interests.local_variable_table || interests.local_variable_type_table {
 				if let Some(local_variables) = self.local_variables {
 					// like the reader, only deliver the entries of the table(s) the visitor is interested in
-					let local_variables = local_variables.into_iter()
+					let was_empty = local_variables.is_empty();
+					let local_variables: Vec<_> = local_variables.into_iter()
 						.filter(|lv| (lv.descriptor.is_some() && interests.local_variable_table) || (lv.signature.is_some() && interests.local_variable_type_table))
 						.collect();
-					code_visitor.visit_local_variables(local_variables)?;
+					// if no entry is left there was no table of interest (the reader delivers nothing then), unless the
+					// table was empty to begin with
+					if was_empty || !local_variables.is_empty() {
+						code_visitor.visit_local_variables(local_variables)?;
+					}
 				}
 			}
 
